@@ -500,15 +500,23 @@ func (w *inotify) handleEvent(inEvent *unix.InotifyEvent, buf *[65536]byte, offs
 		isDir := inEvent.Mask&unix.IN_ISDIR == unix.IN_ISDIR
 		/// New directory created: set up watch on it.
 		if isDir && ev.Has(Create) {
-			// ENOENT means the directory is gone again already (removed, or
-			// renamed once more before we got here): that's not an error.
-			err := w.register(ev.Name, watch.flags, true)
-			if err != nil && !errors.Is(err, unix.ENOENT) {
-				w.mu.Unlock()
-				ok := w.sendError(err)
-				w.mu.Lock()
-				if !ok {
-					return Event{}, false
+			// A directory moved within the tree is watched already (the
+			// kernel watch follows the inode), so only its path needs
+			// updating (below). Don't look up the new name again: by now it
+			// may be a different directory (mv a b; mv b a; mkdir b).
+			moved := ev.renamedFrom != "" && w.watches.byPath(ev.renamedFrom) != nil
+			if !moved {
+				// ENOENT means the directory is gone again already (removed,
+				// or renamed once more before we got here): that's not an
+				// error.
+				err := w.register(ev.Name, watch.flags, true)
+				if err != nil && !errors.Is(err, unix.ENOENT) {
+					w.mu.Unlock()
+					ok := w.sendError(err)
+					w.mu.Lock()
+					if !ok {
+						return Event{}, false
+					}
 				}
 			}
 
